@@ -9,7 +9,7 @@ git -C /repo worktree remove --force "$WT" 2>/dev/null
 git -C /repo worktree add -q --detach "$WT" HEAD || exit 2
 cd "$WT"
 res() { echo "SEED $NAME $1"; }
-cp "$DEMO" "$DDIR/zz_seed_demo_test.go"
+mkdir -p "$DDIR"; cp "$DEMO" "$DDIR/zz_seed_demo_test.go"
 if flock /tmp/siot-test-ports.lock timeout 300 go test ${DEMOTAGS:+-tags $DEMOTAGS} -vet=off -count=1 -run "$RUN" "./$DDIR/" >/tmp/wt/eval-$NAME.demo0.log 2>&1; then res "demo-without-change=PASS"; else res "demo-without-change=FAIL"; fi
 if ! git apply "$PATCH"; then res "patch-does-not-apply"; exit 2; fi
 if go build ./... >/tmp/wt/eval-$NAME.build.log 2>&1; then res "build=ok"; else res "build=FAIL"; fi
